@@ -163,4 +163,367 @@ theorem recordAndCheck_frame (c : Cfg) (s : St) (rd : Nat → Nat) {k k' : Key} 
     have h3 := recordAccess_frame c rd _ h hev
     simp only [h2.1, h2.2.1, h3.1, h3.2.1, h1.1, h1.2.1]
 
+/-! ### the call for key `k` itself, all clock reads of the call equal to `t` -/
+
+def snOf (c : Cfg) (t : Nat) : Option Counter → Nat × Nat
+  | some f => if f.stime + c.cp < t then (t, 0) else (f.stime, f.count)
+  | none => (t, 0)
+
+theorem shouldDeny_none (rd : Nat → Nat) (w : W) (k : Key) (h : dfind w.prison k = none) :
+    shouldDeny rd w k = (false, w) := by
+  simp only [shouldDeny, h]
+
+theorem shouldDeny_some (rd : Nat → Nat) (w : W) (k : Key) (u : Nat) (h : dfind w.prison k = some u) :
+    (shouldDeny rd w k).1 = decide (rd w.j < u) ∧
+    (shouldDeny rd w k).2.access = w.access ∧ (shouldDeny rd w k).2.ev = w.ev ∧
+    dfind (shouldDeny rd w k).2.prison k = (if rd w.j < u then some u else none) := by
+  simp only [shouldDeny, h]
+  by_cases hlt : rd w.j < u
+  · simp [hlt, dfind]
+  · simp [hlt, ddel, dfind_ddel_self]
+
+theorem getCounter_self (c : Cfg) (rd : Nat → Nat) (w : W) (k : Key)
+    (hev : k ∉ (getCounter c rd w k).2.ev) :
+    (getCounter c rd w k).1 = (match dfind w.access k with | some f => f | none => ⟨0, rd w.j⟩) ∧
+    dfind (getCounter c rd w k).2.access k = some (getCounter c rd w k).1 ∧
+    (getCounter c rd w k).2.prison = w.prison ∧ k ∉ w.ev := by
+  cases hA : dfind w.access k with
+  | some f =>
+    simp only [getCounter, hA] at hev ⊢
+    simp [dfind, hev]
+  | none =>
+    simp only [getCounter, hA] at hev ⊢
+    simp only [List.mem_append, not_or] at hev
+    exact ⟨trivial, dfind_dadd_self _ _ _ _ hev.1, trivial, hev.2⟩
+
+theorem incAndCheck_self (c : Cfg) (t : Nat) (w : W) (f : Counter) :
+    (incAndCheck c (fun _ => t) w f).1 =
+      (if f.stime + c.cp < t then ⟨1, t⟩ else ⟨f.count + 1, f.stime⟩) ∧
+    (incAndCheck c (fun _ => t) w f).2.1 = (incAndCheck c (fun _ => t) w f).1.stime + c.cp - t := by
+  unfold incAndCheck
+  dsimp only
+  split <;> simp
+
+theorem counter_after (c : Cfg) (t : Nat) (w : W) (k : Key)
+    (hev : k ∉ (getCounter c (fun _ => t) w k).2.ev) :
+    (incAndCheck c (fun _ => t) (getCounter c (fun _ => t) w k).2 (getCounter c (fun _ => t) w k).1).1 =
+      ⟨(snOf c t (dfind w.access k)).2 + 1, (snOf c t (dfind w.access k)).1⟩ := by
+  have hg := (getCounter_self c (fun _ => t) w k hev).1
+  rw [(incAndCheck_self c t _ _).1, hg]
+  cases hA : dfind w.access k with
+  | some f =>
+    simp only [snOf]
+    split <;> simp
+  | none =>
+    simp only [snOf]
+    have : ¬ t + c.cp < t := by omega
+    simp [this]
+
+theorem recordAccess_self (c : Cfg) (t : Nat) (w : W) (k : Key)
+    (hev : k ∉ (recordAccess c (fun _ => t) w k).ev) :
+    if (snOf c t (dfind w.access k)).2 + 1 > c.th then
+      dfind (recordAccess c (fun _ => t) w k).access k = none ∧
+      dfind (recordAccess c (fun _ => t) w k).prison k =
+        some (c.stay + ((snOf c t (dfind w.access k)).1 + c.cp - t) + t)
+    else
+      dfind (recordAccess c (fun _ => t) w k).access k =
+        some ⟨(snOf c t (dfind w.access k)).2 + 1, (snOf c t (dfind w.access k)).1⟩ ∧
+      dfind (recordAccess c (fun _ => t) w k).prison k = dfind w.prison k := by
+  unfold recordAccess at *
+  dsimp only at *
+  have hi := incAndCheck_frame c (fun _ => t) (getCounter c (fun _ => t) w k).2 (getCounter c (fun _ => t) w k).1
+  have his := incAndCheck_self c t (getCounter c (fun _ => t) w k).2 (getCounter c (fun _ => t) w k).1
+  split at hev
+  · rename_i hc
+    simp only [List.mem_append, not_or] at hev
+    rw [hi.2.2] at hev
+    have hf := counter_after c t w k hev.2
+    have hcnt : (snOf c t (dfind w.access k)).2 + 1 > c.th := by rw [hf] at hc; exact hc
+    rw [if_pos hcnt, if_pos hc]
+    refine ⟨dfind_ddel_self _ _, ?_⟩
+    have := dfind_dadd_self _ _ _ _ hev.1
+    show dfind (dadd _ k _ _).1 k = _
+    rw [this, his.2, hf]
+  · rename_i hc
+    rw [hi.2.2] at hev
+    have hf := counter_after c t w k hev
+    have hg := getCounter_self c (fun _ => t) w k hev
+    have hcnt : ¬ (snOf c t (dfind w.access k)).2 + 1 > c.th := by rw [hf] at hc; exact hc
+    rw [if_neg hcnt, if_neg hc]
+    refine ⟨?_, ?_⟩
+    · show dfind (dset _ k _) k = _
+      rw [dfind_dset_self, hi.1, hg.2.1, hf]; rfl
+    · show dfind (incAndCheck c _ _ _).2.2.prison k = _
+      rw [hi.2.1, hg.2.2.1]
+
+/-- the model's free time equals the ideal one when all reads of the call coincide -/
+theorem ft_eq (c : Cfg) (t : Nat) (A : Option Counter) :
+    c.stay + ((snOf c t A).1 + c.cp - t) + t = (snOf c t A).1 + c.cp + c.stay := by
+  have : t ≤ (snOf c t A).1 + c.cp := by
+    cases A with
+    | none => simp [snOf]
+    | some f =>
+      simp only [snOf]
+      split <;> simp <;> omega
+  omega
+
+theorem shouldDeny_ev (rd : Nat → Nat) (w : W) (k : Key) : (shouldDeny rd w k).2.ev = w.ev := by
+  cases h : dfind w.prison k with
+  | none => rw [shouldDeny_none rd w k h]
+  | some u => exact (shouldDeny_some rd w k u h).2.2.1
+
+theorem tail_refines (c : Cfg) (t : Nat) (w : W) (k : Key) (hP : dfind w.prison k = none)
+    (hev : k ∉ (shouldDeny (fun _ => t) (recordAccess c (fun _ => t) w k) k).2.ev) :
+    (shouldDeny (fun _ => t) (recordAccess c (fun _ => t) w k) k).1 =
+      (if (snOf c t (dfind w.access k)).2 + 1 > c.th
+        then decide (t < (snOf c t (dfind w.access k)).1 + c.cp + c.stay) else false) ∧
+    dfind (shouldDeny (fun _ => t) (recordAccess c (fun _ => t) w k) k).2.access k =
+      (if (snOf c t (dfind w.access k)).2 + 1 > c.th then none
+        else some ⟨(snOf c t (dfind w.access k)).2 + 1, (snOf c t (dfind w.access k)).1⟩) ∧
+    dfind (shouldDeny (fun _ => t) (recordAccess c (fun _ => t) w k) k).2.prison k =
+      (if (snOf c t (dfind w.access k)).2 + 1 > c.th ∧ t < (snOf c t (dfind w.access k)).1 + c.cp + c.stay
+        then some ((snOf c t (dfind w.access k)).1 + c.cp + c.stay) else none) := by
+  rw [shouldDeny_ev] at hev
+  have hra := recordAccess_self c t w k hev
+  by_cases hcnt : (snOf c t (dfind w.access k)).2 + 1 > c.th
+  · rw [if_pos hcnt] at hra
+    rw [ft_eq] at hra
+    have hs := shouldDeny_some (fun _ => t) (recordAccess c (fun _ => t) w k) k _ hra.2
+    simp only [if_pos hcnt]
+    refine ⟨hs.1, ?_, ?_⟩
+    · rw [hs.2.1]; exact hra.1
+    · rw [hs.2.2.2]
+      by_cases hlt : t < (snOf c t (dfind w.access k)).1 + c.cp + c.stay
+      · simp [hlt, hcnt]
+      · simp [hlt]
+  · rw [if_neg hcnt] at hra
+    rw [hP] at hra
+    rw [shouldDeny_none _ _ _ hra.2]
+    simp only [if_neg hcnt]
+    refine ⟨trivial, hra.1, ?_⟩
+    rw [hra.2]
+    simp [hcnt]
+
+theorem rac_unfold (c : Cfg) (s : St) (k : Key) (rd : Nat → Nat) :
+    recordAndCheck c s k rd =
+      if (shouldDeny rd { access := s.access, prison := s.prison } k).1 = true then
+        { deny := true,
+          st := ⟨(shouldDeny rd { access := s.access, prison := s.prison } k).2.access,
+                 (shouldDeny rd { access := s.access, prison := s.prison } k).2.prison⟩,
+          ev := (shouldDeny rd { access := s.access, prison := s.prison } k).2.ev,
+          cmps := (shouldDeny rd { access := s.access, prison := s.prison } k).2.cmps }
+      else
+        { deny := (shouldDeny rd (recordAccess c rd (shouldDeny rd { access := s.access, prison := s.prison } k).2 k) k).1,
+          st := ⟨(shouldDeny rd (recordAccess c rd (shouldDeny rd { access := s.access, prison := s.prison } k).2 k) k).2.access,
+                 (shouldDeny rd (recordAccess c rd (shouldDeny rd { access := s.access, prison := s.prison } k).2 k) k).2.prison⟩,
+          ev := (shouldDeny rd (recordAccess c rd (shouldDeny rd { access := s.access, prison := s.prison } k).2 k) k).2.ev,
+          cmps := (shouldDeny rd (recordAccess c rd (shouldDeny rd { access := s.access, prison := s.prison } k).2 k) k).2.cmps } := by
+  rfl
+
+/-- the ideal count step written with `snOf` -/
+theorem specCount_sn (c : Cfg) (ks : KS) (t : Nat) (A : Option Counter)
+    (h : (ks = .idle ∧ A = none) ∨ (∃ s n, ks = .counting s n ∧ A = some ⟨n, s⟩)) :
+    specCount c ks t =
+      if (snOf c t A).2 + 1 > c.th then
+        (if t < (snOf c t A).1 + c.cp + c.stay then (true, .jailed ((snOf c t A).1 + c.cp + c.stay)) else (false, .idle))
+      else (false, .counting (snOf c t A).1 ((snOf c t A).2 + 1)) := by
+  rcases h with ⟨h1, h2⟩ | ⟨s, n, h1, h2⟩
+  · subst h1; subst h2
+    simp only [specCount, snOf]
+    try rfl
+  · subst h1; subst h2
+    simp only [specCount, snOf]
+    try (split <;> rfl)
+
+/-- from a working state without prison record for `k`: the rest of the call is the ideal count step -/
+theorem tail_spec (c : Cfg) (t : Nat) (w : W) (k : Key) (ks : KS) (hP : dfind w.prison k = none)
+    (hA : (ks = .idle ∧ dfind w.access k = none) ∨ (∃ s n, ks = .counting s n ∧ dfind w.access k = some ⟨n, s⟩))
+    (hev : k ∉ (shouldDeny (fun _ => t) (recordAccess c (fun _ => t) w k) k).2.ev) :
+    (shouldDeny (fun _ => t) (recordAccess c (fun _ => t) w k) k).1 = (specCount c ks t).1 ∧
+    Rel (dfind (shouldDeny (fun _ => t) (recordAccess c (fun _ => t) w k) k).2.access k,
+         dfind (shouldDeny (fun _ => t) (recordAccess c (fun _ => t) w k) k).2.prison k) (specCount c ks t).2 := by
+  have ht := tail_refines c t w k hP hev
+  rw [specCount_sn c ks t _ hA, ht.1, ht.2.1, ht.2.2]
+  by_cases hcnt : (snOf c t (dfind w.access k)).2 + 1 > c.th
+  · by_cases hlt : t < (snOf c t (dfind w.access k)).1 + c.cp + c.stay
+    · simp [hcnt, hlt, Rel]
+    · simp [hcnt, hlt, Rel]
+  · simp [hcnt, Rel]
+
+theorem step_refines (c : Cfg) (s : St) (k : Key) (t : Nat) (ks : KS)
+    (hR : Rel (view s k) ks) (hev : k ∉ (recordAndCheck c s k (fun _ => t)).ev) :
+    (recordAndCheck c s k (fun _ => t)).deny = (specStep c ks t).1 ∧
+    Rel (view (recordAndCheck c s k (fun _ => t)).st k) (specStep c ks t).2 := by
+  rw [rac_unfold] at hev ⊢
+  cases ks with
+  | idle =>
+    simp only [Rel, view, Prod.mk.injEq] at hR
+    have h0 := shouldDeny_none (fun _ => t) { access := s.access, prison := s.prison } k hR.2
+    rw [h0] at hev ⊢
+    simp only [Bool.false_eq_true, if_false] at hev ⊢
+    exact tail_spec c t _ k .idle hR.2 (Or.inl ⟨rfl, hR.1⟩) hev
+  | counting st n =>
+    simp only [Rel, view, Prod.mk.injEq] at hR
+    have h0 := shouldDeny_none (fun _ => t) { access := s.access, prison := s.prison } k hR.1.2
+    rw [h0] at hev ⊢
+    simp only [Bool.false_eq_true, if_false] at hev ⊢
+    exact tail_spec c t _ k (.counting st n) hR.1.2 (Or.inr ⟨st, n, rfl, hR.1.1⟩) hev
+  | jailed u =>
+    simp only [Rel, view, Prod.mk.injEq] at hR
+    have hs := shouldDeny_some (fun _ => t) { access := s.access, prison := s.prison } k u hR.2
+    by_cases hlt : t < u
+    · have h1 : (shouldDeny (fun _ => t) { access := s.access, prison := s.prison } k).1 = true := by
+        rw [hs.1]; simp [hlt]
+      rw [if_pos h1]
+      simp only [specStep, hlt, if_true, view, Rel]
+      refine ⟨trivial, ?_⟩
+      rw [hs.2.1, hs.2.2.2]
+      simp [hlt, hR.1]
+    · have h1 : ¬ (shouldDeny (fun _ => t) { access := s.access, prison := s.prison } k).1 = true := by
+        rw [hs.1]; simp [hlt]
+      rw [if_neg h1] at hev ⊢
+      simp only [specStep, hlt, if_false]
+      have hP' : dfind (shouldDeny (fun _ => t) { access := s.access, prison := s.prison } k).2.prison k = none := by
+        rw [hs.2.2.2]; simp [hlt]
+      have hA' : dfind (shouldDeny (fun _ => t) { access := s.access, prison := s.prison } k).2.access k = none := by
+        rw [hs.2.1]; exact hR.1
+      exact tail_spec c t _ k .idle hP' (Or.inl ⟨rfl, hA'⟩) hev
+
+/-! ### histories -/
+
+/-- a history of calls whose clock reads all coincide: (key, time) -/
+def inst (h : List (Key × Nat)) : List Event := h.map fun e => (e.1, fun _ => e.2)
+
+/-- the times of `k`'s requests in a history -/
+def kTimes (k : Key) : List (Key × Nat) → List Nat
+  | [] => []
+  | (k', t) :: r => if k' = k then t :: kTimes k r else kTimes k r
+
+/-- the verdicts given to `k`'s requests -/
+def kVerdicts (k : Key) : List (Key × Nat) → List Bool → List Bool
+  | (k', _) :: r, v :: vs => if k' = k then v :: kVerdicts k r vs else kVerdicts k r vs
+  | _, _ => []
+
+theorem hist_refines (c : Cfg) (k : Key) : ∀ (h : List (Key × Nat)) (s : St) (ks : KS),
+    Rel (view s k) ks → k ∉ (runHist c s (inst h)).2.2 →
+    kVerdicts k h (runHist c s (inst h)).1 = (specRun c ks (kTimes k h)).1 ∧
+    Rel (view (runHist c s (inst h)).2.1 k) (specRun c ks (kTimes k h)).2 := by
+  intro h
+  induction h with
+  | nil => intro s ks hR _; simpa [inst, runHist, kVerdicts, kTimes, specRun] using hR
+  | cons e r ih =>
+    intro s ks hR hev
+    obtain ⟨k', t⟩ := e
+    simp only [inst, List.map_cons, runHist, List.mem_append, not_or] at hev ⊢
+    by_cases hk : k' = k
+    · subst hk
+      have hs := step_refines c s k' t ks hR hev.1
+      have := ih (recordAndCheck c s k' (fun _ => t)).st (specStep c ks t).2 hs.2 hev.2
+      simp only [inst] at this
+      simp only [kVerdicts, kTimes, if_true, specRun, this.1, hs.1]
+      exact ⟨trivial, this.2⟩
+    · have hf := recordAndCheck_frame c s (fun _ => t) hk hev.1
+      have := ih (recordAndCheck c s k' (fun _ => t)).st ks (by rw [hf]; exact hR) hev.2
+      simp only [inst] at this
+      simp only [kVerdicts, kTimes, if_neg hk]
+      exact this
+
+theorem other_keys_hist (c : Cfg) (k : Key) : ∀ (es : List Event) (s : St),
+    (∀ e ∈ es, e.1 ≠ k) → k ∉ (runHist c s es).2.2 → view (runHist c s es).2.1 k = view s k := by
+  intro es
+  induction es with
+  | nil => intro s _ _; rfl
+  | cons e r ih =>
+    intro s hne hev
+    obtain ⟨k', rd⟩ := e
+    simp only [runHist, List.mem_append, not_or] at hev ⊢
+    have hk : k' ≠ k := hne (k', rd) (by simp)
+    have hf := recordAndCheck_frame c s rd hk hev.1
+    rw [ih _ (fun e he => hne e (by simp [he])) hev.2, hf]
+
+/-! ### the ideal machine -/
+
+theorem specRun_append (c : Cfg) : ∀ (a b : List Nat) (ks : KS),
+    specRun c ks (a ++ b) =
+      ((specRun c ks a).1 ++ (specRun c (specRun c ks a).2 b).1, (specRun c (specRun c ks a).2 b).2) := by
+  intro a
+  induction a with
+  | nil => intro b ks; simp [specRun]
+  | cons t r ih => intro b ks; simp [specRun, ih]
+
+theorem count_phase (c : Cfg) (s : Nat) : ∀ (ts : List Nat) (n : Nat),
+    (∀ t ∈ ts, t ≤ s + c.cp) → n + ts.length ≤ c.th →
+    specRun c (.counting s n) ts = (List.replicate ts.length false, .counting s (n + ts.length)) := by
+  intro ts
+  induction ts with
+  | nil => intro n _ _; simp [specRun]
+  | cons t r ih =>
+    intro n hin hle
+    have h1 : ¬ s + c.cp < t := by have := hin t (by simp); omega
+    have h2 : ¬ n + 1 > c.th := by simp at hle; omega
+    have hstep : specStep c (.counting s n) t = (false, .counting s (n + 1)) := by
+      simp [specStep, specCount, h1, h2]
+    have := ih (n + 1) (fun x hx => hin x (by simp [hx])) (by simp at hle ⊢; omega)
+    simp only [specRun, hstep, this, List.length_cons, List.replicate_succ]
+    congr 2
+    omega
+
+theorem jailed_phase (c : Cfg) (u : Nat) : ∀ (ts : List Nat), (∀ t ∈ ts, t < u) →
+    specRun c (.jailed u) ts = (List.replicate ts.length true, .jailed u) := by
+  intro ts
+  induction ts with
+  | nil => intro _; simp [specRun]
+  | cons t r ih =>
+    intro hin
+    have h1 : t < u := hin t (by simp)
+    have := ih (fun x hx => hin x (by simp [hx]))
+    simp [specRun, specStep, h1, this, List.replicate_succ]
+
+theorem filter_len_cons_le (p : Nat → Bool) (t : Nat) (r : List Nat) :
+    (r.filter p).length ≤ ((t :: r).filter p).length := by
+  rw [List.filter_cons]
+  split <;> simp
+
+/-- below the threshold in every window ⇒ no denial (from a counting state) -/
+theorem below_never_aux (c : Cfg) : ∀ (ts : List Nat) (s n : Nat),
+    List.Pairwise (· ≤ ·) ts → (∀ x ∈ ts, s ≤ x) →
+    (∀ s', (ts.filter (fun x => decide (s' ≤ x) && decide (x ≤ s' + c.cp))).length ≤ c.th) →
+    n + (ts.filter (fun x => decide (x ≤ s + c.cp))).length ≤ c.th →
+    (specRun c (.counting s n) ts).1 = List.replicate ts.length false := by
+  intro ts
+  induction ts with
+  | nil => intro s n _ _ _ _; simp [specRun]
+  | cons t r ih =>
+    intro s n hp hge hH hcnt
+    rw [List.pairwise_cons] at hp
+    have hHr : ∀ s', (r.filter (fun x => decide (s' ≤ x) && decide (x ≤ s' + c.cp))).length ≤ c.th :=
+      fun s' => Nat.le_trans (filter_len_cons_le _ t r) (hH s')
+    by_cases hre : s + c.cp < t
+    · -- the window expired: a new one starts at t
+      have hHt := hH t
+      rw [List.filter_cons] at hHt
+      simp only [Nat.le_refl, decide_true, Nat.le_add_right, Bool.and_self, if_true, List.length_cons] at hHt
+      have hcongr : r.filter (fun x => decide (t ≤ x) && decide (x ≤ t + c.cp)) =
+          r.filter (fun x => decide (x ≤ t + c.cp)) := by
+        apply List.filter_congr
+        intro x hx
+        simp [hp.1 x hx]
+      rw [hcongr] at hHt
+      have hth : ¬ 0 + 1 > c.th := by omega
+      have hstep : specStep c (.counting s n) t = (false, .counting t 1) := by
+        simp [specStep, specCount, hre]; omega
+      have := ih t 1 hp.2 hp.1 hHr (by omega)
+      simp only [specRun, hstep, this, List.length_cons, List.replicate_succ]
+    · have hcnt' := hcnt
+      rw [List.filter_cons] at hcnt'
+      have hts : t ≤ s + c.cp := by omega
+      simp only [hts, decide_true, if_true, List.length_cons] at hcnt'
+      have hstep : specStep c (.counting s n) t = (false, .counting s (n + 1)) := by
+        simp [specStep, specCount, hre]; omega
+      have := ih s (n + 1) hp.2 (fun x hx => hge x (by simp [hx])) hHr (by omega)
+      simp only [specRun, hstep, this, List.length_cons, List.replicate_succ]
+
+theorem specStep_idle_eq (c : Cfg) (t : Nat) : specStep c .idle t = specStep c (.counting t 0) t := by
+  simp [specStep, specCount]
+
 end BfeVerif.C53
